@@ -178,7 +178,7 @@ def check(pid, tier, seed, a, t0):
     bviol = (bres or {}).get("violations", [])
     concrete = []
     for v in bviol:
-        match = match_known(v.get("witness_class", ""), v.get("what", ""), kf)
+        match = match_known_case(v, kf)
         if match:
             known_hit.append((match, v))
             continue
@@ -284,6 +284,16 @@ def check(pid, tier, seed, a, t0):
             print(f"UNDECIDED property={pid} obligation={u['obligation']} reason={u['reason']}")
         return 2
     return 0
+
+
+def match_known_case(v, kf):
+    """a bounded violation is a known finding only if both its case id and its witness class are the listed ones"""
+    for f in kf:
+        cases = f.get("cases", [])
+        wcs = f.get("witness_classes", [])
+        if cases and any(str(v.get("case", "")).startswith(c) for c in cases) and (not wcs or v.get("witness_class") in wcs):
+            return f
+    return None
 
 
 def match_known(key, text, kf):
